@@ -270,8 +270,15 @@ class Interp:
                 e = s.exc.func if isinstance(s.exc, ast.Call) else s.exc
                 name = e.id if isinstance(e, ast.Name) else (e.attr if isinstance(e, ast.Attribute) else "Exception")
                 if isinstance(s.exc, ast.Call):
+                    # the values the exception is built from travel with the state (`except X as e: e.code`)
+                    curv = [([], c) for c in cur]
                     for a in s.exc.args:
-                        cur = [s2 for c in cur for (_, s2) in self._vals(a, c, out, s)]
+                        curv = [(vs + [v], s2) for vs, c in curv for (v, s2) in self._vals(a, c, out, s)]
+                    cur = []
+                    for vs, c in curv:
+                        c = c.copy()
+                        c.env["@exc"] = Const(Rec(name, args=list(vs)))
+                        cur.append(c)
             return out + [("raise", name, c, s) for c in cur]
         if isinstance(s, ast.If):
             for truth_, s2 in self.branch(s.test, st, out, s):
@@ -398,6 +405,13 @@ class Interp:
                         s2 = r[2].copy()
                         if h.name:
                             s2.env[h.name] = Unknown("exc")
+                            pay = s2.env.get("@exc")
+                            hook = getattr(self, "exc_fields", None)
+                            if isinstance(pay, Const) and isinstance(pay.v, Rec) and pay.v.cls == r[1] and hook is not None:
+                                flds = hook(r[1], pay.v.fields["args"])
+                                if flds is not None:
+                                    s2.env[h.name] = Const(Rec(r[1], **flds))
+                        s2.env.pop("@exc", None)
                         out.extend(self.block(h.body, s2))
                         handled = True
                         break
@@ -991,7 +1005,7 @@ class Interp:
         sub = Interp(func.node, func.cls.name if func.cls else (self.clsname if self_param else None), self.oracle, self.max_paths,
                      loop_unroll=self.loop_unroll, depth=self.depth + 1, max_depth=self.max_depth,
                      exc_bases=self.exc_bases, resolve=self.resolve, selfname=self_param)
-        for hk in ("getattr_hook", "yield_hook"):
+        for hk in ("getattr_hook", "yield_hook", "exc_fields"):
             if getattr(self, hk, None) is not None:
                 setattr(sub, hk, getattr(self, hk))
         params = list(func.params)
@@ -1011,6 +1025,9 @@ class Interp:
             for k, v in st.env.items():
                 if k.startswith(caller_self + "."):
                     inner.env[callee_self + k[len(caller_self):]] = v
+        for k, v in st.env.items():
+            if k.startswith("@"):
+                inner.env[k] = v  # scenario state kept by oracles (cursors, buffers), pending exception values
         out = []
         for p in sub.run(env, inner):
             s2 = st.copy()
@@ -1019,6 +1036,11 @@ class Interp:
                 for k, v in p.env.items():
                     if k.startswith(callee_self + "."):
                         s2.env[caller_self + k[len(callee_self):]] = v
+            for k in [k for k in s2.env if k.startswith("@")]:
+                del s2.env[k]
+            for k, v in p.env.items():
+                if k.startswith("@"):
+                    s2.env[k] = v
             out.append((Exc(p.value, p.node) if p.kind == "raise" else p.value, s2))
         return out
 
